@@ -94,7 +94,17 @@ impl Drv for Sym {
     }
 }
 
+thread_local! {
+    /// when set, harness name 1 denotes this slot (one handed out by Slot::fresh()) instead of `$x`
+    static FRESH_SLOT: std::cell::Cell<Option<Slot>> = std::cell::Cell::new(None);
+}
+
 fn slot_name(n: Name) -> Slot {
+    if n == 1 {
+        if let Some(s) = FRESH_SLOT.with(|c| c.get()) {
+            return s;
+        }
+    }
     match n {
         0 => Slot::numeric(1),
         1 => Slot::named("x"),
@@ -407,6 +417,30 @@ fn roundtrip_exec<L: Drv>(tier: Tier, chunk: u64) -> (Vec<Fail>, u64, u64, Vec<u
     let lo = chunk as usize * CHUNK;
     let hi = (lo + CHUNK).min(terms.len());
     let base: Vec<T> = all_terms(L::sig(), 2, 2, true);
+    // values that mention a slot handed out by Slot::fresh() (what extraction and matching return): it prints as
+    // `$f<N>` and must parse back to the SAME slot
+    FRESH_SLOT.with(|c| c.set(Some(Slot::fresh())));
+    for t in &base {
+        let pat: Pattern<L> = to_pattern(t);
+        let printed = pat.to_string();
+        evals += 1;
+        match catch(|| Pattern::<L>::parse(&printed)) {
+            Ok(Ok(p2)) if p2 == pat => {}
+            Ok(other) => fails.push(("roundtrip".into(), format!("Pattern {printed:?} with a fresh slot [{}]", L::NAME), format!("re-parses to {:?}", other.map(|x| x.to_string()).map_err(|e| format!("{e:?}"))))),
+            Err(site) => fails.push(("parse-panic".into(), format!("Pattern::parse({printed:?}) [{}]", L::NAME), site)),
+        }
+        if !t.to_sexp().contains('?') {
+            let re: RecExpr<L> = to_re(t);
+            let printed = re.to_string();
+            evals += 1;
+            match catch(|| RecExpr::<L>::parse(&printed)) {
+                Ok(Ok(r2)) if r2 == re => {}
+                Ok(other) => fails.push(("roundtrip".into(), format!("RecExpr {printed:?} with a fresh slot [{}]", L::NAME), format!("re-parses to {:?}", other.map(|x| x.to_string()).map_err(|e| format!("{e:?}"))))),
+                Err(site) => fails.push(("parse-panic".into(), format!("RecExpr::parse({printed:?}) [{}]", L::NAME), site)),
+            }
+        }
+    }
+    FRESH_SLOT.with(|c| c.set(None));
     for t in &terms[lo..hi] {
         count += 1;
         let has_pvar = t.to_sexp().contains('?');
